@@ -6,7 +6,7 @@
    returns).  Only pinned statements here; proofs in proofs/{TrackNetP,EstNetP,EstTimeP,OrdP}.v. *)
 From Coq Require Import Reals List Bool Arith ZArith Floats Uint63.
 From AltModel Require Import Num TrackNet EstNet EstUpdate.
-From AltProofs Require Import TrackNetP EstNetP EstTimeP OrdP EstUpdateP EstUpdateWitness.
+From AltProofs Require Import TrackNetP EstNetP EstTimeP OrdP EstUpdateP EstUpdateWitness EstQueueP.
 Import ListNotations.
 Open Scope nat_scope.
 
@@ -86,3 +86,12 @@ Theorem C15_sched_nonneg_refuted :
   exists ns', update_times 66 EstUpdateWitness.w_nodes EstUpdateWitness.w_set EstUpdateWitness.w_t0 = Ok ns' /\
               EstUpdateWitness.some_negative ns' = true.
 Proof. split; [exact EstUpdateWitness.witness_input_ok|exact EstUpdateWitness.update_times_negative_sched_witness]. Qed.
+
+(* the priority queues of the model are max-heap pops under the code's own orderings (total orders over R, OrdP.v):
+   the element removed is a maximum and nothing else is lost *)
+Theorem C15_queues_are_heap_pops :
+  (forall (x0 : R * nat) rest x q, pop_max cmp_est_next x0 rest [] = Ok (x, q) ->
+     Permutation.Permutation (x :: q) (x0 :: rest) /\ forall y, In y (x0 :: rest) -> EstQueueP.le_c cmp_est_next y x) /\
+  (forall (x0 : R * R * nat) rest x q, pop_max cmp_est_prev x0 rest [] = Ok (x, q) ->
+     Permutation.Permutation (x :: q) (x0 :: rest) /\ forall y, In y (x0 :: rest) -> EstQueueP.le_c cmp_est_prev y x).
+Proof. split; [exact EstQueueP.est_next_queue_pop|exact EstQueueP.est_prev_queue_pop]. Qed.
